@@ -35,7 +35,7 @@
 #include <unistd.h>
 
 #define CTL_FD 200
-#define MAX_ACTIONS 64
+#define MAX_ACTIONS 320
 
 enum { A_R, A_RA, A_W1, A_W2, A_CAT, A_C0, A_C1, A_C2, A_SLEEP, A_IGNTERM, A_EXIT, A_KILL, A_HOLD, A_STOP };
 enum { ST_RUNNABLE = 0, ST_BLOCKED_READ = 1, ST_BLOCKED_W1 = 2, ST_BLOCKED_W2 = 3, ST_SLEEPING = 4, ST_EXITING = 5, ST_STOPPING = 6 };
